@@ -551,12 +551,19 @@ def r6_populate(ctx):
     if fn is None:
         r.missing("Ranges::populate")
     else:
-        t = flat(show(fn.body))
-        want = '{ifletSome(count_arg)=args.get("var_count"){self.populate_with_count_arg(count_arg,args,foreign_key,locale,key_path)}else{self.populate_with_new_key(self.count_key.clone(),args,foreign_key,locale,key_path)}}'
-        if not same(t, want):
-            r.viol("R6:Ranges::populate", "Ranges::populate changed: %s" % t[:160], file=fn.file, line=fn.line)
+        # decided by the evaluation of ParsedValue::populate over ranges (rules/fkeval.py, C06.R0): the argument named like the range's own
+        # count variable fixes the branch (literal) or renames it (variable); without it the range keeps its count key; every other
+        # argument is substituted in every branch
+        from rules import c06 as _c06
+        k0_, ok0_, why0_ = _c06.r0_substitution(ctx)
+        bad0_ = [v_ for v_ in k0_.violations if re.search(r"populate#range|populate#.*range", v_.key)]
+        if not ok0_:
+            r.viol("R6:Ranges::populate#undecided", "the substitution into ranges cannot be interpreted on the current code (%s): not decided (fail closed)" % str(why0_)[:200], file=fn.file, line=fn.line)
+        elif bad0_:
+            for v_ in bad0_[:3]:
+                r.viol("R6:" + v_.key.split(":", 1)[1], v_.msg, file=v_.file, line=v_.line)
         else:
-            r.inst("Ranges::populate", "count arg present -> populate_with_count_arg(count_arg, args, ..) else keep own count key")
+            r.inst("Ranges::populate", "count argument (by the range's own count name) present -> branch fixed / count renamed, else own count key kept (evaluated, shared with C06.R0)")
     fn = ast.fn(PR, "populate_with_count_arg", impl_self="Ranges")
     if fn is not None:
         t = flat(show(fn.body))
